@@ -197,4 +197,60 @@ theorem sections_replace (c : HdrCfg) (t : Text) (hstyle : (c.style.name == "Emp
     · exact .inl h
     · exact .inr ⟨rfl, h⟩
 
+/-! ### the `.license` pseudo style -/
+
+theorem lineStart_go_mem (acc s : Text) (out : List (Text × Text)) (p : Text × Text) (hp : p ∈ out) :
+    p ∈ lineStartSuffixes.go acc s out := by
+  induction s generalizing acc out with
+  | nil => simpa [lineStartSuffixes.go] using hp
+  | cons c cs ih =>
+    rw [lineStartSuffixes.go]
+    split
+    · exact ih _ _ (List.mem_cons_of_mem _ hp)
+    · exact ih _ _ hp
+
+theorem lineStart_first (t : Text) : (([], t) : Text × Text) ∈ lineStartSuffixes t := by
+  unfold lineStartSuffixes
+  exact lineStart_go_mem [] t _ _ (by simp)
+
+/-- the text declares nothing the readers could find -/
+def Nothing (t : Text) : Prop := (extractRaw t).cpr = [] ∧ (extractRaw t).lic = [] ∧ (extractRaw t).con = []
+
+/-- a `.license` file in which the locator finds no information holds none, when all its expressions parse -/
+theorem nothing_of_no_header {c : HdrCfg} {t : Text} (hE : c.style.isEmptyStyle = true)
+    (hf : findFirstSpdxComment c t = none) (hp : (extractRaw t).lic.all c.parses = true) : Nothing t := by
+  unfold findFirstSpdxComment at hf
+  rw [List.findSome?_eq_none_iff] at hf
+  have h0 := hf _ (lineStart_first t)
+  have hc : commentAtFirst c.style t = .ok t := by unfold commentAtFirst; simp [hE]
+  simp only [hc] at h0
+  split at h0
+  · cases h0
+  · rename_i hinfo
+    unfold containsReuseInfo extractInfo at hinfo
+    simp only [hp, if_true, Bool.not_eq_true, Bool.not_eq_false', Bool.and_eq_true, List.isEmpty_iff] at hinfo
+    exact ⟨hinfo.1.2, hinfo.1.1, hinfo.2⟩
+
+/-- the sections for the `.license` pseudo style: everything from the first position with REUSE information is the block -/
+theorem sections_license (c : HdrCfg) (t : Text) (hstyle : (c.style.name == "EmptyCommentStyle") = true)
+    (hsb : c.style.shebangs = []) (hp : (extractRaw t).lic.all c.parses = true) :
+    SectionsOK t (replaceSections c t).1 (replaceSections c t).2.1 (replaceSections c t).2.2 ∨
+    ((replaceSections c t).1 = [] ∧ (replaceSections c t).2.1 = [] ∧ (replaceSections c t).2.2 = [] ∧ Nothing t) := by
+  have hE : c.style.isEmptyStyle = true := by unfold Generated.Style.isEmptyStyle; simp [hstyle]
+  unfold replaceSections
+  simp only [hstyle, if_true, hsb, moveShebang]
+  cases hf : findFirstSpdxComment c t with
+  | none =>
+    right
+    refine ⟨?_, ?_, ?_, nothing_of_no_header hE hf hp⟩ <;> first | rfl | trivial
+  | some x =>
+    obtain ⟨b, hh, a⟩ := x
+    obtain ⟨r, comment, hbr, hb, hc, _, hhe, _⟩ := findFirst_spec hf
+    have hcr : comment = r := commentAt_empty hE hc
+    left
+    refine ⟨⟨[], by decide, by decide, .inr ⟨?_, rfl⟩⟩, .inl (lineEnded_of_getLast hb), ?_⟩
+    · simp only [List.nil_append, List.append_nil]
+      rw [hhe, hcr, ← hbr]; simp
+    · simp only [hhe]; apply lineEnded_iff.mpr; right; exact ⟨comment, rfl⟩
+
 end C09L
